@@ -74,6 +74,13 @@ def c01(rep, env):
         BC.check_roundtrip(rep, fb)
         MI.check_stream_involution(rep, fb)
         MI.check_length_preserving(rep, fb)
+        # "through every public way of driving the mode (block at a time, many blocks ...)": the
+        # one-step inversion above extends to multi-block calls only if the parallel bodies agree
+        # with the one-block kernels
+        only(rep, lambda r: BM.check_par(r, fb), pre("par.closed-form"))
+        only(rep, lambda r: SM.check_ctr_backend(r, fb), pre("par.closed-form"))
+        only(rep, lambda r: SM.check_belt(r, fb, parts=("par",)), pre("par.closed-form"))
+        only(rep, lambda r: CM.check_helpers(r, fb), pre("helpers.one-block", "helpers.par-group"))
     per_config(rep, env, f)
 
 
@@ -114,7 +121,9 @@ def c05(rep, env):
 
 def c06(rep, env):
     def f(fb):
-        only(rep, lambda r: SM.check_belt(r, fb, parts=("def", "par")), pre("belt.", "par."))
+        # rem.exact belongs here too: a wrong remaining-blocks report makes the byte-level API refuse
+        # keystream blocks E(s0+i) that the definition (sums mod 2^128) requires it to produce
+        only(rep, lambda r: SM.check_belt(r, fb, parts=("def", "par", "rem")), pre("belt.", "par.", "rem.exact"))
         MI.check_plumbing(rep, fb, crates={"belt_ctr"})
         MI.check_enc_only(rep, fb, crates={"belt_ctr"})
     per_config(rep, env, f)
@@ -151,6 +160,11 @@ def c09(rep, env):
         only(rep, lambda r: SM.check_ctr_core(r, fb), pre("ctr.core"))
         only(rep, lambda r: SM.check_belt(r, fb, parts=("export",)), pre("ivstate."))
         BC.check_state(rep, fb)
+        # a resumed run partitions the blocks into calls differently from the uninterrupted one:
+        # "continues exactly" needs the parallel bodies to agree with the one-block kernels
+        only(rep, lambda r: BM.check_par(r, fb), pre("par.closed-form"))
+        only(rep, lambda r: SM.check_ctr_backend(r, fb), pre("par.closed-form", "ctr.ks.advance"))
+        only(rep, lambda r: SM.check_belt(r, fb, parts=("par", "def")), pre("par.closed-form", "belt.ks.advance"))
     per_config(rep, env, f)
 
 
